@@ -13,6 +13,7 @@ theorem liveInv_init (M : Machine S) (hs : ReplaySafe M) (c0 : Nat) :
   futns := by intro x hx; cases hx
   votes := by intro v hv; simp [votesOf] at hv
   rok := by simp [above, sortByHeight, ReplayOK]
+  votesR := by simp [above, sortByHeight, replayRun, votesOf]
 
 theorem liveInv_run (M : Machine S) (hs : ReplaySafe M) (ins : List Input) (s : S) (E : List Entry)
     (b : Nat) (tr : List Effect) (inv : LiveInv M s E b tr) (ok : ListenOK M s ins) :
